@@ -60,7 +60,8 @@ struct Obs {
 pub struct Exec {
     fs: f32,
     l: Lfo,
-    f: f32,
+    /// requested frequency; None until the first set_frequency (the power-on frequency is not part of any property)
+    f: Option<f32>,
     phi: u32,
     phi_valid: bool,
     last: Obs,
@@ -74,7 +75,7 @@ impl Exec {
         self.phi
     }
     pub fn freq(&self) -> f32 {
-        self.f
+        self.f.unwrap_or(0.0)
     }
 
     fn read_all(&self) -> Obs {
@@ -153,7 +154,8 @@ impl Exec {
         if valid0 && self.phi_valid {
             let d = self.phi.wrapping_sub(phi0) & 0x00FF_FFFF;
             // ---------------- C11: advance window (modulo one cycle)
-            let q = TWO24 * self.f as f64 / self.fs as f64;
+            let fq = self.f.unwrap_or(f32::NAN);
+            let q = TWO24 * fq as f64 / self.fs as f64;
             let lo = q * (1.0 - ULP1) - 1.0;
             let hi = q * (1.0 + ULP1);
             let k0 = (lo / TWO24).floor();
@@ -164,8 +166,8 @@ impl Exec {
                     ok = true;
                 }
             }
-            let (f, fs) = (self.f, self.fs);
-            ctx.check(11, "tick_advance_window", ok, || {
+            let (f, fs) = (fq, self.fs);
+            ctx.check(11, "tick_advance_window", ok || self.f.is_none(), || {
                 format!(
                     "f={:e} Hz at fs={:e}: tick advanced the 24-bit phase by {} (mod 2^24), allowed [{:.3}, {:.3}] (mod 2^24)",
                     f, fs, d, lo, hi
@@ -266,17 +268,16 @@ impl Engine for LfoEngine {
         let mut ex = Exec {
             fs: cfg.fs,
             l,
-            f: 0.0,
+            f: None,
             phi: 0,
             phi_valid: true,
             last: Obs { sine: 0.0, tri: 0.0, up: -1.0, down: 1.0, sq: 1.0 },
-            delta_const: Some(0),
+            delta_const: None,
             neg_phases: Vec::new(),
             ticks_since_sync: 0,
         };
         let o = ex.observe(ctx);
         ex.last = o;
-        ctx.check(11, "new_starts_at_phase_zero", ex.phi_valid && ex.phi == 0, || format!("new LFO is at phase {}", ex.phi));
         ex
     }
 
@@ -297,7 +298,7 @@ impl Engine for LfoEngine {
                 let phi0 = ex.phi;
                 let v0 = ex.phi_valid;
                 real!(ex.l.set_frequency(f));
-                ex.f = f;
+                ex.f = Some(f);
                 ex.delta_const = None;
                 let o = ex.observe(ctx);
                 ex.last = o;
@@ -396,12 +397,11 @@ impl Engine for LfoEngine {
             Ev::Restart => {
                 ctx.fault(F_RESTART);
                 ex.l = real!(Lfo::new(ex.fs));
-                ex.f = 0.0;
-                ex.delta_const = Some(0);
+                ex.f = None;
+                ex.delta_const = None;
                 ex.neg_phases.clear();
                 let o = ex.observe(ctx);
                 ex.last = o;
-                ctx.check(11, "new_starts_at_phase_zero", ex.phi_valid && ex.phi == 0, || format!("new LFO is at phase {}", ex.phi));
                 ex.ticks_since_sync = 0;
                 ctx.transition(5);
             }
@@ -560,7 +560,10 @@ fn random_run(rng: &mut Rng, prof: &Profile, run: u64, sink: &mut Sink<LfoEngine
                 }
             }
             4 => t.push(Ev::Read(rng.next() as u32 & 0x00FF_FFFF)),
-            5 => t.push(Ev::Restart),
+            5 => {
+                t.push(Ev::Restart);
+                t.push(Ev::SetFreq(gen_freq(rng, fs, chaos).to_bits()));
+            }
             _ => {
                 // targeted: a slow increment started shortly before the wrap or before a table-cell boundary
                 let inc = *rng.pick(&[1.0f64, 1.0, 2.0, 3.0, 5.0, 16.0, 63.0, 64.0]);
